@@ -9,7 +9,9 @@ MANIFEST = dict(
     text="TLC checks NonNegative, Conservation (sum of balances + fees held = start + issuance - burns at every intermediate state), "
          "GasWithinLimit and NotIncludedIsFree on the ledger model (plain transfers incl. to self, foreign gas payer, too-low gas limit, "
          "unaffordable amount, calls into contracts that accept / revert / burn by self-destruct / hand back, box transactions with 1-2 sub "
-         "transactions at a different gas price; simulation adds votes, register / top-up / unregister through the deposit pool); every "
+         "transactions at a different gas price; simulation adds votes, register / top-up / unregister through the deposit pool; blocks whose "
+         "header names a SMALL GAS LIMIT - 40000 .. 175000 - so that the last candidates, a whole box, or a box's first / later sub transaction "
+         "do not fit: such a candidate stays out of the block and must have cost nothing); every "
          "transition of the state graph is executed on real nodes: real signed transactions mined by the real BlockAssembler after every "
          "step and verified + executed by a second real node through DPoVP.InsertBlock; per block TLC validates every account's balance "
          "against parent balance - gasUsed x gasPrice for the payer - amounts of packaged successful transactions + receipts + the block's "
@@ -22,7 +24,8 @@ MANIFEST = dict(
     note="gasUsed and packaging decisions are adopted from the real block (the model cannot predict gas); contract outcomes are fixed by the "
          "five deployed byte codes. Term boundary: term / interim duration shrunk to 5-6 / 1-2 blocks, reward pool total lowered to 600000 LEMO, "
          "the (empty) snapshot block is part of the setup chain, one reward block per behaviour; the design run also shows that a refund not "
-         "debited from the pool violates DepositsBacked (mutant Mut_RefundNotFromPool). "
+         "debited from the pool violates DepositsBacked (mutant Mut_RefundNotFromPool) and that a box dropped for lack of block gas without "
+         "undoing its gas purchase and the sub transactions that ran violates Conservation / NotIncludedIsFree (Mut_BlockFullKeepsPartialBox). "
          "Known defect carried as deviation Dev_BoxSubGasMinted.",
     technique="TLA+ model checking (Ledger.tla over LedgerOps.tla) + replay of the TLC state graph and simulated behaviours on real nodes "
               "(adapter ledger) + TLC trace validation (TraceLedger.tla, Check = C05)")
@@ -30,6 +33,8 @@ MANIFEST = dict(
 
 def run(ctx):
     ledger_common.run(ctx, "C05", exhaustive=dict(quick="c05_quick", thorough="c05_thorough"),
-                      negatives=[("c05_neg", ["Conservation"]), ("c05_negterm", ["DepositsBacked", "EndOfBlockIssuesTheReward"])],
+                      negatives=[("c05_neg", ["Conservation"]), ("c05_negterm", ["DepositsBacked", "EndOfBlockIssuesTheReward"]),
+                                 ("c05_neggas", ["Conservation", "NotIncludedIsFree"])],
+                      more=[dict(name="gas", quick="c05_gas", thorough="c05_gas_thorough")],
                       sim="c05_sim", sim_quick=150, sim_thorough=3000, depth=9,
                       term=dict(graph=dict(quick="c05_term", thorough="c05_term_thorough"), sim="c05_simterm", sim_quick=64, sim_thorough=800, depth=10))
